@@ -168,7 +168,7 @@ Examples:
 		// If search failed, try recovery mechanisms
 		if len(results) == 0 {
 			searchRecovery := recovery.NewSearchRecovery()
-			recoveredResults, recoveryErr := searchRecovery.RecoverFromSearchFailure(query, nil, db)
+			recoveredResults, recoveryErr := searchRecovery.RecoverWithLimit(query, nil, db, searchOptions.Limit)
 			if recoveryErr == nil && len(recoveredResults) > 0 {
 				results = recoveredResults
 			}
